@@ -55,7 +55,7 @@ class LaTeXRenderer(BaseRenderer):
 
     def render_image(self, token):
         self.packages['graphicx'] = []
-        return '\n\\includegraphics{{{}}}\n'.format(token.src)
+        return '\n\\includegraphics{{{}}}\n'.format(self.escape_url(token.src))
 
     def render_link(self, token):
         self.packages['hyperref'] = []
